@@ -34,8 +34,8 @@ SnapContent(r) == [size |-> r.size, last |-> r.last, prev |-> r.prev, hist |-> r
 NormNode(p) ==
   IF ~p.alive THEN (IF "disk" \in DOMAIN p
                     THEN [alive |-> FALSE, disk |-> [jlog |-> p.disk.jlog, torn |-> p.disk.torn, meta |-> p.disk.meta, dump |-> p.disk.dump,
-                                                  term |-> p.disk.term, votedFor |-> p.disk.votedFor]]
-                    ELSE [alive |-> FALSE])
+                                                  term |-> p.disk.term, votedFor |-> p.disk.votedFor], gen |-> p.gen]
+                    ELSE [alive |-> FALSE, gen |-> p.gen])
   ELSE [alive |-> TRUE, role |-> p.role, term |-> p.term, votedFor |-> p.votedFor, votes |-> p.votes,
         leader |-> p.leader, log |-> p.log, commit |-> p.commit, applied |-> p.applied, lci |-> p.lci,
         nextIdx |-> p.nextIdx, matchIdx |-> p.matchIdx, fresh |-> ToSet(p.fresh),
